@@ -230,6 +230,17 @@ FALLBACK = {
                      ("rl_new", ["C05"], "RateLimiter::new starts with the documented capacity"),
                      ("pos_allow", ["C05"], "AtomicPosition::allow token bucket on a grid of states and times"),
                      ("rl_window", ["C05"], "window bound 20 + R*T + 1 on generated request traces")],
+    "bar_draw": [("bar_screen", ["C01", "C03", "C04"], "screen = printed lines + frame after each of 3 operations out of 11 (inc, messages short / wrapping / multi-line / empty, println short / wrapping, set_length, set_position, reset, suspend) + 5 finishing variants + drop, lengths known / unknown: 3872 states"),
+                 ("bar_forced", ["C04", "C05", "C03", "C01"], "finish*, abandon, drop, println, suspend paint with an exhausted 1 Hz limiter"),
+                 ("bar_frames", ["C05"], "400 ordinary updates paint at most 20 + rate*T + 1 frames (6 position/length pairs x 2 rates)"),
+                 ("bar_hidden", ["C06"], "getters of a hidden bar vs a visible bar after 2 operations + 6 finishing / reset variants: 726 histories"),
+                 ("io_fail_bar", ["C18"], "every ProgressBar call under a terminal failing after 0 / 1 / 3 / 8 / 20 operations")],
+    "draw_to_term": [("bar_screen", ["C01", "C03", "C19"], "as above (wrapping messages and printed lines exercise the row accounting)"),
+                     ("multi_finish", ["C04", "C19"], "finished bars of a MultiProgress stay, in order, for every finish and drop order of three bars")],
+    "multi_state": [("multi_order", ["C02"], "documented order after up to 5 add / insert / insert_from_back / insert_before / insert_after / remove operations: 13204 states"),
+                    ("multi_finish", ["C04", "C02"], "finished bars of a MultiProgress stay, in order, for every finish and drop order of three bars"),
+                    ("io_fail_multi", ["C18"], "MultiProgress calls under a failing terminal")],
+    "c07_position": [("bar_hidden", ["C06", "C07"], "getters after operation histories, hidden vs visible")],
     "c09_estimator": [("est_laws", ["C09"], "finite / non-negative / bounded / steady-exact / reset-forgets on the real f64 estimator: 5 rates x 6 gap patterns x 40 samples")],
     "c14_style": [("style_build", ["C14"], "builders reject or produce a renderable style (family of tick/progress strings)")],
     "c10_template": [("template_total", ["C10"], "parser totality on generated strings up to length 6 over the grammar alphabet"),
